@@ -167,6 +167,72 @@ def zero_sized(c, m=None):
     return z
 
 
+def sem_zero_sized(c, m=None):
+    """GREATEST fixed point of the zero-size rules: the defined declarations ALL of whose (finite) values encode to
+    no bytes.  It differs from `zero_sized` (the least fixed point, which is what the code computes: a declaration met
+    again on the recursion stack counts as "not zero-sized") only through cycles: X = Enum{tag_width 0, [A -> unit,
+    B -> X]} has values A, B(A), B(B(A)), ... and every one of them is empty."""
+    m = defs_map(c) if m is None else m
+    z = set(m)
+    changed = True
+    while changed:
+        changed = False
+        for k in list(z):
+            d = m[k]
+            t = d[0]
+            if t == 'p':
+                ok = d[1] == 0
+            elif t == 's':
+                ok = d[1] == 0 and ((d[2] == 0 and d[3] == 0) or d[4] in z)
+            elif t == 'e':
+                ok = d[1] == 0 and all(v[2] in z for v in d[2])
+            else:
+                ok = all(x in z for x in members(d))
+            if not ok:
+                z.discard(k)
+                changed = True
+    return z
+
+
+def inhabited(c, m=None):
+    """Least fixed point: the defined declarations that have at least one (finite) value."""
+    m = defs_map(c) if m is None else m
+    h = set()
+    changed = True
+    while changed:
+        changed = False
+        for k, d in m.items():
+            if k in h:
+                continue
+            t = d[0]
+            if t in ('p', 'se'):
+                ok = True
+            elif t == 's':
+                ok = d[2] <= d[3] and (d[2] == 0 or d[4] in h)
+            elif t == 'e':
+                ok = any(v[2] in h for v in d[2])
+            else:
+                ok = all(x in h for x in members(d))
+            if ok:
+                h.add(k)
+                changed = True
+    return h
+
+
+def cyclic_zero_sequences(c, m=None, r=None):
+    """Reachable dynamically sized sequences whose elements have values, all of them empty, although the least
+    fixed point (the code's notion) does not call the element zero-sized."""
+    m = defs_map(c) if m is None else m
+    r = reach(c, m) if r is None else r
+    lfp, gfp, inh = zero_sized(c, m), sem_zero_sized(c, m), inhabited(c, m)
+    out = []
+    for x in sorted(r):
+        d = m.get(x)
+        if d is not None and d[0] == 's' and not is_array(d) and d[2] <= d[3] and d[4] in gfp and d[4] in inh and d[4] not in lfp:
+            out.append(x)
+    return out
+
+
 def on_cycle(c, m=None, r=None):
     """Reachable declarations that lie on a cycle of the member graph."""
     m = defs_map(c) if m is None else m
@@ -349,6 +415,14 @@ def check_c09(c, result, bound=U64, value_len=None, complete=True):
         elif kind == 'Recursive':
             if not cyc:
                 out.append(('bad-recursive', 'Recursive reported but no reachable declaration lies on a cycle'))
+            elif not missing and cyc <= sem_zero_sized(c, m):
+                # finding F25: the cycle only runs through declarations all of whose values are empty, so the true maximum is
+                # not unbounded because of it (height-bounded maxima are stationary)
+                K2 = 2 * K
+                best = max_heights(c, K2, m)
+                if best[K][c['root']] is not None and best[K][c['root']] == best[K2][c['root']]:
+                    out.append(('cyclic-zero-size', 'Recursive reported although every declaration on a reachable cycle (%s) has only empty values: '
+                                                    'the largest value of the root has %d bytes at every height' % (sorted(cyc)[0], best[K][c['root']])))
         elif kind == 'Overflow':
             if not missing and not cyc:
                 v = unbounded(c, m)
@@ -377,6 +451,11 @@ def check_c10(c, result, dfs=None):
     if res[0] == 'ok':
         if dfs:
             out.append(('accepts-ill-formed', 'validate is Ok but the container has defects %s' % sorted(dfs)[:4]))
+        else:
+            cz = cyclic_zero_sequences(c)
+            if cz:        # finding F25: "zero-sized" is decided as a least fixed point, which is wrong through a cycle
+                out.append(('cyclic-zero-size', 'validate is Ok but every value of the elements of the dynamically sized sequence %s encodes to no bytes '
+                                                '(the elements reach themselves through untagged definitions)' % cz[0]))
     else:
         _, kind, d = res
         if not dfs:
